@@ -44,13 +44,16 @@ PROPS["C09"] = _kv("C09", "LeafNodes lists every terminal value once, with a pat
 PROPS["C09"]["gen"] = ["setters", "pure"]
 PROPS["C10"] = _kv("C10", "UpdateValuesForPath changes only the addressed values and reports how many", {"quick": 4000, "thorough": 60000},
     "Theorems over the model of updateValuesForKeyPath/updateValue (functional rebuild of the in-place update); correspondence of the resulting Map and count; oracle compares with the addressed-positions specification.",
-    "Trusted: Coq kernel; model validated by correspondence; two recorded findings (create-on-absent, list node before the last key).")
+    "Trusted: Coq kernel; model validated by correspondence; getSubKeyMap and hasSubKeys (the sub-key conditions) additionally re-translated from the current source by go2v on every run and proved equal to the model (C10_get_sub_key_map_code_is_model, C10_has_sub_keys_code_is_model); two recorded findings (create-on-absent, list node before the last key).")
+PROPS["C10"]["gen"] = ["setters", "pure"]
 PROPS["C11"] = _kv("C11", "SetValueForPath, Remove, RenameKey touch exactly one entry or fail cleanly", {"quick": 4000, "thorough": 60000},
     "Theorems over the models of SetValueForPath (located ValuesForPath + write), Remove and RenameKey (prevValueByPath + write); correspondence of the Map after the call and of the error class; oracle checks post-condition, frame and fail-clean on the implementation.",
-    "Trusted: Coq kernel; model validated by correspondence.")
+    "Trusted: Coq kernel; model validated by correspondence; Map.Exists and Map.ValuesForPath (RenameKey's pre-checks, SetValueForPath's lookup) additionally re-translated from the current source by go2v on every run and proved equal to the model (C11_exists_code_is_model, C11_values_for_path_code_is_model; the indexed-path loop valuesForArray is translated but its equality with the model is checked by correspondence only).")
+PROPS["C11"]["gen"] = ["setters", "pure"]
 PROPS["C12"] = _kv("C12", "NewMap builds exactly the requested projection and leaves the source unchanged", {"quick": 4000, "thorough": 60000},
     "Theorems over the model of NewMap/addNewVal; correspondence of the built Map, the error class and the receiver after the call; oracle checks receiver deep-equality and the projection content.",
-    "Trusted: Coq kernel; model validated by correspondence; immutability of Gallina values hides aliasing, so non-modification of the receiver is observed by the harness (deep comparison) on every case.")
+    "Trusted: Coq kernel; model validated by correspondence; immutability of Gallina values hides aliasing, so non-modification of the receiver is observed by the harness (deep comparison) on every case; Map.ValuesForPath (the source of the old values) additionally re-translated from the current source by go2v on every run and proved equal to the model (C12_values_for_path_code_is_model).")
+PROPS["C12"]["gen"] = ["setters", "pure"]
 
 XML_ASSUME = [
     "encoding/xml's tokenizer is the environment: the decoder model consumes the token list the real Decoder.Token returned for the same bytes (recorded by the harness); toks_of_* in Spec/ state what it returns on rendered trees and are validated on every run",
